@@ -87,3 +87,10 @@ pub fn random_string(r: &mut SplitMix64, max_len: u64) -> String {
 pub fn catch<T>(f: impl FnOnce() -> T) -> Option<T> {
     std::panic::catch_unwind(std::panic::AssertUnwindSafe(f)).ok()
 }
+
+/// `ColumnType::Array(elem)` built through the public API (independent of the pointer type the variant holds)
+pub fn array_of(elem: sea_query::ColumnType) -> sea_query::ColumnType {
+    let mut c = sea_query::ColumnDef::new(sea_query::Alias::new("x"));
+    c.array(elem);
+    c.get_column_type().expect("array type").clone()
+}
